@@ -82,6 +82,13 @@ def electrumBits (idx : List Nat) (base : Nat) : Option Bits := bitsFromIndexes 
 def bip85Entropy (hm : Bytes → Bytes → Bytes) (key : Bytes) : Bytes :=
   hm (natsToBytes Gen.Mnemonic.BIP85_HMAC_KEY) key
 
+/-- the derivation path of `bip85.mnemonic_from_root_key`, every level hardened:
+    m / 83696968' / 39' / language' / words' / index' -/
+def bip85Bip39Path (lang : String) (words index : Nat) : Option (List Nat) :=
+  match Gen.Mnemonic.BIP85_LANGUAGES.lookup lang, Gen.Mnemonic.BIP85_ENTROPY_BYTES.lookup words with
+  | some code, some _ => some [Gen.Mnemonic.BIP85_PURPOSE, 39, code, words, index]
+  | _, _ => none
+
 /-- `bip85.mnemonic_from_root_key` after the derivation, up to the word lookup -/
 def bip85Bip39Indexes (hm : Bytes → Bytes → Bytes) (H : Bytes → Bytes) (key : Bytes) (words : Nat) :
     Option (List Nat) :=
